@@ -41,6 +41,9 @@ def main():
                 col.feature('corpus_replayed')
         else:
             mod.run_shard(spec, col)
+        from vlib import hyp
+        if hyp.flaky_events:
+            col.feature('hypothesis_flaky_generation(leg cut short: draws depended on earlier cases)', len(hyp.flaky_events))
         res = col.result()
         res['status'] = 'ok'
     except BaseException as e:  # harness error, never a violation
